@@ -163,7 +163,8 @@ theorem C52_random_unit_interval (s : Stream) (fuel p : Nat) (out : Out) (p' : N
         (2 ^ 52 + ratioBits k % 2 ^ 52) * 2 ^ 50 = k * 2 ^ (1075 - ratioBits k / 2 ^ 52)) := by
     intro k hk
     by_cases h0 : k = 0
-    · subst h0; simp [ratioBits]
+    · subst h0
+      exact ⟨by simp [ratioBits], (fun _ => by simp [ratioBits]), (fun h => absurd h (by omega))⟩
     · have hpos : 0 < k := by omega
       obtain ⟨e1, e2⟩ := ratioBits_spec hpos (by omega : k < 2 ^ 53)
       have hl : Nat.log2 k + 1 ≤ 50 := log2_lt_bits h0 hk
@@ -324,6 +325,19 @@ theorem C52_pinned_set_seed (g : GenState) (n : Int) :
     simp only [setRandomPinned, h, if_false]
 
 /-! ## non-vacuity and witnesses -/
+
+/-- a stream whose every fourth word is `0x80000000`, all others 0. -/
+def altStream : Stream := fun i => if i % 4 = 3 then 0x80000000 else 0
+
+/-- **The answer depends on the representation of the bounds, not only on their values**: with the
+    same stream and position, `random_integer(0, 10, X)` gives 0 (two raw words, u64 sampler) when
+    both bounds are `Fixnum` cells and 5 (four raw words, u128 sampler) when the bound 0 sits in an
+    arena integer (e.g. `L is 2^80-2^80`, or the literal `-36028797018963968` for −2^55). Both are in
+    range; calls with `==`-equal arguments need not return the same value after the same seed. -/
+theorem C52_representation_matters :
+    randomInteger altStream (.int 0 false) (.int 10 false) .var 1 0 = some (.int 0, 2) ∧
+    randomInteger altStream (.int 0 true) (.int 10 false) .var 1 0 = some (.int 5, 4) := by
+  constructor <;> decide
 
 /-- a stream of all-zero words. -/
 def zeroStream : Stream := fun _ => 0
